@@ -16,9 +16,10 @@ TEXT = {
                    "expressions (incl. ones sensitive to NumPy's floating-point error mode) must give, "
                    "on every instance and at any time, the outcome recorded on a pristine instance at "
                    "the start of the run (absolute reference against state shared by all instances). "
-                   "Ten configurations incl. an atom factory returning several classes, NumPy-array atoms "
-                   "and a table extended by user-defined parenthesis operators (own separator, own "
-                   "brackets); expressions nested up to 120 deep, numbers cut off at their exponent, "
+                   "Twelve configurations incl. an atom factory returning several classes, NumPy-array atoms, "
+                   "a table extended by user-defined parenthesis operators (own separator, own "
+                   "brackets), a table with function operators but no plain parenthesis and a step "
+                   "sequence that omits operators of its table; expressions nested up to 120 deep, numbers cut off at their exponent, "
                    "Expression objects as arguments. A third reference besides the fresh instance and the "
                    "per-run record: every canary's outcome in a process of its own that has solved nothing "
                    "else, computed before the search starts (catches state shared by all instances that "
@@ -114,7 +115,10 @@ TEXT = {
                    "monotone and the multiset of rows unchanged; malformed rows (too few values, a "
                    "missing column, a cell that cannot be cast to its column's type, a lazy row whose source "
                    "fails part-way) must be refused without a trace; a sort that fails (unknown column, "
-                   "unorderable values) must leave the rows as they were; plain, restarted, nested and zipped "
+                   "unorderable values) must leave the rows as they were; the documented conversion "
+                   "helpers (to_dataframe, to_text, to_dict, data) are operations too - the object is the "
+                   "same afterwards, also when the caller scribbles over the export or fills a deep copy "
+                   "further; unsigned-integer columns, descending sorts with zeros; plain, restarted, nested and zipped "
                    "iteration over a table are compared with the model. The grid and combination clauses are "
                    "stateless and are enumerated exhaustively (n <= 40, columns <= 8, both orders, list "
                    "and dict data; all shapes of <= 3 lists of <= 3 items) - that part is plain "
@@ -138,7 +142,9 @@ TEXT = {
                    "negatives, false, none included); faults are the four aborting assignments (other data "
                    "type, unit of another dimension or unit on a unit-less node, write to a constant, "
                    "declared node left without value); rounds that define units only, custom units as the "
-                   "*target* of a conversion, none assigned last to a declared node that has had a value. Oracles: commit/abort as predicted, names in order "
+                   "*target* of a conversion, none assigned last to a declared node that has had a value, a declared node copied by "
+                   "an import before it has a value, the parser used as a context manager and asked to "
+                   "parse after its block, accessors read in both orders of formats. Oracles: commit/abort as predicted, names in order "
                    "of first appearance, type class / width / sign, unit and value (1e-12 relative).",
         level_note="Width changes, modifications of never-defined nodes, empty strings, none for array "
                    "nodes or with a unit, integer nodes converted by non-integer factors and a declared "
@@ -162,7 +168,9 @@ TEXT = {
                    "a malformed first text refused on the same parser object before the real text; "
                    "conditions whose bound is another node (re-evaluated when only that node changes in a "
                    "chained round); values exactly on an open boundary and none on a constrained node (both "
-                   "refused); user functions that convert or extend what they are handed. Oracles: the model's commit/abort verdict in both directions (reject and "
+                   "refused); user functions that convert or extend what they are handed; several "
+                   "!options clauses with the same numbers in different units; fully open dimensions "
+                   "before bounded ones; an imported copy given a !format of its own. Oracles: the model's commit/abort verdict in both directions (reject and "
                    "accept), and an independent evaluator re-checks every returned environment against "
                    "all constraints its nodes carry, whatever the model predicted.",
         level_note="Values within 1e-3 relative of a boundary without sitting on it are treated as "
@@ -184,7 +192,8 @@ TEXT = {
                    "several / {?} outside a condition / unknown source / missing file / a host adopting a "
                    "unit of another dimension (must abort; units sized by reference ($unit u = {?a}), "
                    "temperatures with offset conversion (0 Cel is 273.15 K), 2-D slices as element, row "
-                   "and column; an empty import may abort or add nothing), ENOENT / EACCES / EIO / undecodable "
+                   "and column, files of modifications used as reference sources (untyped values picked "
+                   "up with their unit); an empty import may abort or add nothing), ENOENT / EACCES / EIO / undecodable "
                    "on a chosen open, file content replaced between rounds. Oracles: values, units, types "
                    "and paths as the model predicts; after every round every earlier environment "
                    "(including the base) and its custom units report exactly their commit-time snapshot "
